@@ -2,4 +2,5 @@ import Driver.Util
 import Driver.Session
 import Driver.Credit
 import Driver.RecvCredit
+import Driver.Frame
 import Driver.Main
